@@ -35,6 +35,10 @@ def camel(key):
 
 
 def map_key(m, name):
+    if isinstance(m, dict) and "chain" in m:      # the regular path: the parents' mapper, then the class's own
+        for step in m["chain"]:
+            name = map_key(step, name)
+        return name
     if m == "camel":
         return camel(name)
     if m == "lower":
@@ -79,6 +83,107 @@ def wire_mapper(m):
     if isinstance(m, dict) and "complex" in m:
         return "complex-list" if m["complex"] == "list" else "complex"
     return m
+
+
+# ------------------------------------------------------------------ where a class declares its mapper(s)
+
+SLOTS = {"ser": "_serialization_mapper", "deser": "_deserialization_mapper"}
+EMPTY = {"rename": []}       # a declared `{}`
+
+
+def find_struct(d, name):
+    if isinstance(d, dict):
+        if d.get("k") == "struct" and d.get("name") == name:
+            return d
+        for v in d.values():
+            r = find_struct(v, name)
+            if r is not None:
+                return r
+    elif isinstance(d, list):
+        for x in d:
+            r = find_struct(x, name)
+            if r is not None:
+                return r
+    return None
+
+
+def other_mapper(rng, names, m):
+    """a simple mapper different from m: an enum mapper, a rename dict (injective), or {}"""
+    for _ in range(8):
+        r = rng.random()
+        if r < 0.25:
+            o = "camel"
+        elif r < 0.5:
+            o = "lower"
+        elif r < 0.65:
+            o = EMPTY
+        else:
+            keys = rng.sample(["k1", "k2", "zz", "q_r", "k3", "w_w", "o1", "o2"], min(len(names), 8))
+            o = {"rename": [[n, k] for n, k in zip(names, keys) if rng.random() < 0.7]}
+        if o != m and [map_key(o, n) for n in names] != [map_key(m, n) for n in names]:
+            return o
+    return EMPTY if m != EMPTY else "lower"
+
+
+def resolve_decl(d):
+    """the mapper the deserializing paths read: getattr(cls, DESER, getattr(cls, SER, {}))"""
+    own = d.get("deser") if d.get("deser") is not None else d.get("baseDeser")
+    if own is not None:
+        return own
+    ser = d.get("ser") if d.get("ser") is not None else d.get("baseSer")
+    return ser if ser is not None else "none"
+
+
+def chain_of(d):
+    """what the regular path reads: per class of the MRO its deserialization mapper, else its serialization mapper
+    (an inherited attribute counts for the subclass again), chained parent first"""
+    def slot(deser, ser):
+        return deser if deser is not None else ser
+    base = slot(d.get("baseDeser"), d.get("baseSer"))
+    own = slot(d.get("deser") if d.get("deser") is not None else d.get("baseDeser"),
+               d.get("ser") if d.get("ser") is not None else d.get("baseSer"))
+    return [m for m in (base, own) if m is not None]
+
+
+def mapper_decls(rng, cls, table):
+    """for every class with a mapper: which attribute(s) declare it, in the class or in a parent class"""
+    decls, eff = {}, {}
+    for name, m in table.items():
+        d = find_struct(cls, name)
+        if d is None or d.get("inline"):
+            continue        # generated but not part of the final class tree
+        names = [n for n, _ in d["fields"]]
+        simple = not (isinstance(m, dict) and "complex" in m)
+        kinds = (["ser"] * 3 + ["deser", "both-equal", "both-diff", "both-diff", "ser-empty", "deser-empty",
+                               "base", "base-deser", "base-chain"]) if simple else ["ser", "ser", "deser", "base"]
+        kind = rng.choice(kinds)
+        if kind == "ser":
+            dc = {"ser": m}
+        elif kind == "deser":
+            dc = {"deser": m}
+        elif kind == "both-equal":
+            dc = {"ser": m, "deser": m}
+        elif kind == "both-diff":
+            dc = {"deser": m, "ser": other_mapper(rng, names, m)}
+        elif kind == "ser-empty":
+            dc = {"deser": m, "ser": EMPTY}
+        elif kind == "deser-empty":
+            dc = {"deser": EMPTY, "ser": m}
+        elif kind == "base":
+            dc = {"baseSer": m}
+        elif kind == "base-deser":
+            dc = {"baseDeser": m, "ser": other_mapper(rng, names, m)} if rng.random() < 0.5 else {"baseDeser": m}
+        else:
+            dc = {"baseSer": rng.choice(["camel", "lower"]), "ser": m}
+        dc["kind"] = kind
+        decls[name] = dc
+        eff[name] = resolve_decl(dc)
+    return decls, eff
+
+
+def wire_decls(decls):
+    return [[n, {slot: wire_mapper(d[slot]) for slot in ("ser", "deser", "baseSer", "baseDeser") if d.get(slot) is not None}]
+            for n, d in sorted((decls or {}).items())]
 
 
 # ------------------------------------------------------------------ declarations on the boundary
@@ -273,7 +378,7 @@ def pick_kinds(rng):
 
 # ------------------------------------------------------------------ building real classes
 
-def build_tree(decl, ctx, mapper_table=None, fast=False, non_fast=(), split=None):
+def build_tree(decl, ctx, mapper_table=None, fast=False, non_fast=(), split=None, mapper_decls=None):
     """build every non-inline class of `decl` bottom-up (mapper / FastSerializable included);
     `split=k`: the top class is declared as a subclass: its first k fields live in a parent class"""
     mapper_table = mapper_table or {}
@@ -281,12 +386,22 @@ def build_tree(decl, ctx, mapper_table=None, fast=False, non_fast=(), split=None
     def build_one(d, split=None):
         bases = (Structure, FastSerializable) if (fast and d["name"] not in non_fast) else (Structure,)
         fields = list(d["fields"])
-        if split:
-            parent = make(d, d["name"] + "Base", fields[:split], bases, None)
+        dc = (mapper_decls or {}).get(d["name"])
+        if dc is not None:
+            attrs = lambda a, b: {SLOTS[k]: real_mapper(dc[v], d) for k, v in (("ser", a), ("deser", b)) if dc.get(v) is not None}
+            own, inherited = attrs("ser", "deser"), attrs("baseSer", "baseDeser")
+            if inherited:
+                parent = make(d, d["name"] + "Base", [], bases, inherited)      # a parent class that only declares the mapper
+                cls = make(d, d["name"], fields, (parent,), own)
+            else:
+                cls = make(d, d["name"], fields, bases, own)
+        elif split:
+            parent = make(d, d["name"] + "Base", fields[:split], bases, {})
             ctx.parent_class = parent
-            cls = make(d, d["name"], fields[split:], (parent,), None)
+            cls = make(d, d["name"], fields[split:], (parent,), {})
         else:
-            cls = make(d, d["name"], fields, bases, real_mapper(mapper_table.get(d["name"]), d))
+            m = real_mapper(mapper_table.get(d["name"]), d)
+            cls = make(d, d["name"], fields, bases, {} if m is None else {"_serialization_mapper": m})
         ctx.classes[d["name"]] = cls
         return cls
 
@@ -299,8 +414,7 @@ def build_tree(decl, ctx, mapper_table=None, fast=False, non_fast=(), split=None
         body["_additional_properties"] = bool(d.get("addl", True))
         if d.get("ignoreNone"):
             body["_ignore_none"] = True
-        if m is not None:
-            body["_serialization_mapper"] = m
+        body.update(m)
         return type(name, bases, body)
 
     def walk(d):
@@ -433,10 +547,11 @@ def gen_trusted(rng, tier, n_classes):
         cls = bg.class_decl(0)
         C.fix_accepts(cls)
         vg = gen.ValGen(rng)
-        table = dict(bg.mappers)
+        decls, table = mapper_decls(rng, cls, dict(bg.mappers))     # table: the mapper the deserializing paths read
         wire_table = [[n, wire_mapper(m)] for n, m in sorted(table.items())]
         base = {"suite": "shortcut", "mode": "trusted", "cls": cls, "mappers": wire_table, "mapperSpec": table,
-                "enumKinds": pick_kinds(rng)}
+                "mapperDecls": decls, "enumKinds": pick_kinds(rng)}
+        chain_table = {n: {"chain": chain_of(dc)} for n, dc in decls.items()}
         for _ in range(4):
             kw = vg.valid_kw(cls)
             if kw is gen.NOVALUE:
@@ -461,6 +576,9 @@ def gen_trusted(rng, tier, n_classes):
                             cases.append(dict(base, stream=tag + ":cascade-keys", doc=casc, opts=o, re=gen.re_table(cls, casc)))
                     if rng.random() < 0.3:
                         cases.append(dict(base, stream=tag + ":field-names", doc=dd, opts=o, re=gen.re_table(cls, dd)))
+                    chained = map_doc(cls, dd, chain_table, ())
+                    if chained != own and rng.random() < 0.7:
+                        cases.append(dict(base, stream=tag + ":chain-keys", doc=chained, opts=o, re=gen.re_table(cls, chained)))
                 else:
                     cases.append(dict(base, stream=tag, doc=dd, opts=o, re=gen.re_table(cls, dd)))
         cases.append(dict(base, stream="non-object", doc=rng.choice([None, 1, "s", {"l": []}, {"m": []}]),
@@ -745,7 +863,7 @@ def run_trusted(case):
     decl = case["cls"]
     table = case.get("mapperSpec") or {}
     try:
-        cls = build_tree(decl, ctx, table)
+        cls = build_tree(decl, ctx, table, mapper_decls=case.get("mapperDecls"))
     except Exception as e:
         return {"unbuildable": f"class: {type(e).__name__}: {e}"}
     bad = _check_class(cls, decl, ctx)
@@ -935,6 +1053,8 @@ def line(case, impl):
     if case["mode"] == "trusted":
         l["doc"] = case["doc"]
         l["opts"] = impl.get("opts_actual", {})
+        if case.get("mapperDecls") is not None:
+            l["mapperDecls"] = wire_decls(case["mapperDecls"])     # the model resolves the attribute the trusted path reads
     elif case["mode"] == "construct":
         l["kw"] = impl.get("kw_actual", case["kw"])
     else:
@@ -984,6 +1104,8 @@ def tags(case, impl, model):
         return out
     if case.get("mapperSpec"):
         out.append("mappers:yes")
+    for dc in (case.get("mapperDecls") or {}).values():
+        out.append("mapper-decl:" + dc["kind"])
     if case["mode"] == "trusted":
         out.append("verdict:" + str(impl.get("verdict")))
         for key in ("regular", "trusted"):
